@@ -4,7 +4,7 @@
    next whole unit). *)
 From stdpp Require Import gmap.
 From Coq Require Import ZArith Lia.
-From V Require Import Base.Res C16.QuantModel.
+From V Require Import Base.Res C16.SatModel C16.FloatMini C16.QuantModel.
 Open Scope Z_scope.
 
 Lemma qvalue_units v : qvalue (1000 * v) = v.
@@ -233,4 +233,136 @@ Example conv_nonvacuous :
   conv_domain 1 4007 = true /\ quantity_to_float 1 true (float_to_quantity 1 true 4007) = 4007 /\
   float_to_quantity 16 true (16 * 4007 + 9) = 4007 /\ quantity_to_float 1 false 2500 = 3 /\
   float_to_quantity 1 true (quantity_to_float 1 true 4007) = 4007.
+Proof. vm_compute. repeat split; reflexivity. Qed.
+
+(* ---- magnitudes up to 2^63: float64 / int64 effects ---- *)
+Lemma amount_ok_spec x : amount_ok x = true -> f64 x = x /\ i64 x = x.
+Proof.
+  unfold amount_ok, fexact, i64, min64, max64. rewrite andb_true_iff, Z.eqb_eq, bool_decide_eq_true.
+  change (2 ^ 63) with 9223372036854775808. intros [H1 H2]. split; [exact H1|].
+  replace (-9223372036854775808 <=? x) with true by (symmetry; apply Z.leb_le; lia).
+  replace (x <=? 9223372036854775807) with true by (symmetry; apply Z.leb_le; lia). reflexivity.
+Qed.
+
+(* the guard in the words of the float mini-model: x is a binary64 value *)
+Lemma amount_ok_float x : amount_ok x = true -> FloatMini.round x = Fin x /\ Z.abs x < 2 ^ 63.
+Proof.
+  unfold amount_ok, fexact. rewrite andb_true_iff, Z.eqb_eq, bool_decide_eq_true. intros [H1 H2].
+  split; [|exact H2]. unfold FloatMini.round. fold (f64 x). rewrite H1.
+  assert (H : 2 ^ 63 < 2 ^ 1024) by (apply Z.pow_lt_mono_r; lia).
+  replace (2 ^ 1024 <=? x) with false by (symmetry; apply Z.leb_gt; lia).
+  replace (x <=? - 2 ^ 1024) with false by (symmetry; apply Z.leb_gt; lia). reflexivity.
+Qed.
+
+Lemma map_res_id F r :
+  F (cpu r) = cpu r -> F (mem r) = mem r -> (forall k v, scm r !! k = Some v -> F v = v) -> map_res F r = r.
+Proof.
+  destruct r as [c m [s|]]; cbn; intros H1 H2 H3; unfold map_res; cbn; rewrite H1, H2; [|reflexivity].
+  f_equal. f_equal. apply map_eq. intros k. rewrite lookup_fmap.
+  destruct (s !! k) as [v|] eqn:E; cbn; [|reflexivity]. f_equal. apply (H3 k v). exact E.
+Qed.
+
+Lemma res_exact_spec r : res_exact r = true -> map_res i64 r = r /\ map_res f64 r = r.
+Proof.
+  unfold res_exact. rewrite !andb_true_iff, bool_decide_eq_true. intros [[H1 H2] H3].
+  apply amount_ok_spec in H1, H2.
+  split; apply map_res_id; try tauto; intros k v E; apply amount_ok_spec, (H3 k v E).
+Qed.
+
+Lemma scm_map_res F r k : scm (map_res F r) !! k = F <$> scm r !! k.
+Proof.
+  unfold scm, map_res. cbn [sc]. destruct (sc r); cbn [default]; [apply lookup_fmap|].
+  rewrite lookup_empty. reflexivity.
+Qed.
+
+(* Resource -> ResourceList -> Resource is the identity on rt_domain: scalar names NewResource keeps, no
+   empty non-nil scalar map, every amount a float64-exact integer with |amount| < 2^63 in the unit the
+   code converts *)
+Theorem new_resource_convert r : rt_domain r = true -> new_resource (convert r) = (r, sget r pods_name).
+Proof.
+  unfold rt_domain. rewrite !andb_true_iff. intros [[H1 H2] H3].
+  apply bool_decide_eq_true in H1. apply negb_true_iff, bool_decide_eq_false in H2.
+  destruct (res_exact_spec r H3) as [E1 E2].
+  unfold convert, new_resource. rewrite E1.
+  rewrite (new_resource_convert_gen_z r); [|intros k v E; apply (H1 k v E)|exact H2].
+  rewrite E2. reflexivity.
+Qed.
+
+(* ResourceList -> Resource -> ResourceList on rl_exact: as on small amounts *)
+Theorem convert_new_resource_exact_range rl : rl_exact rl = true ->
+  convert (fst (new_resource rl)) = convert_z (fst (new_resource_z rl)).
+Proof.
+  unfold rl_exact, new_resource, convert. destruct (new_resource_z rl) as [r mt]. cbn [fst]. intros H.
+  destruct (res_exact_spec r H) as [E1 E2]. rewrite E2, E1. reflexivity.
+Qed.
+
+Theorem convert_new_resource rl k : rl_exact rl = true ->
+  let rl' := convert (fst (new_resource rl)) in
+  match name_class k with
+  | CCpu => rl' !! k = Some (default 0 (rl !! k))
+  | CMem => rl' !! k = Some (1000 * qvalue (default 0 (rl !! k)))
+  | CPods => rl' !! k = (fun m => 1000 * qvalue m) <$> rl !! k
+  | CEph | CScalar => rl' !! k = rl !! k
+  | CCountQuota | CIgnoredDev | CDropped => rl' !! k = None
+  end.
+Proof. intros H. cbn zeta. rewrite (convert_new_resource_exact_range rl H). apply convert_new_resource_z. Qed.
+
+Corollary convert_new_resource_exact rl k m : rl_exact rl = true ->
+  rl !! k = Some m -> kept_scalar k = true \/ k = cpu_name \/ k = mem_name ->
+  (k = mem_name \/ k = pods_name -> (1000 | m)) ->
+  convert (fst (new_resource rl)) !! k = Some m.
+Proof. intros H. rewrite (convert_new_resource_exact_range rl H). apply convert_new_resource_exact_z. Qed.
+
+(* without any guard: every amount goes through float64 rounding and int64 conversion, per name *)
+Theorem convert_new_resource_any rl k :
+  let c x := i64 (f64 x) in
+  let rl' := convert (fst (new_resource rl)) in
+  match name_class k with
+  | CCpu => rl' !! k = Some (c (default 0 (rl !! k)))
+  | CMem => rl' !! k = Some (1000 * c (qvalue (default 0 (rl !! k))))
+  | CPods => rl' !! k = (fun m => 1000 * c (qvalue m)) <$> rl !! k
+  | CEph | CScalar => rl' !! k = c <$> rl !! k
+  | CCountQuota | CIgnoredDev | CDropped => rl' !! k = None
+  end.
+Proof.
+  cbn zeta. unfold convert, new_resource.
+  destruct (new_resource_z rl) as [rz mt] eqn:Ez. cbn [fst].
+  assert (Hrz : rz = fst (new_resource_z rl)) by (rewrite Ez; reflexivity).
+  rewrite lookup_convert_z, !scm_map_res. rewrite Hrz, scm_new_resource_z.
+  unfold new_resource_z. cbn [fst map_res Res.cpu Res.mem]. unfold scalar_of.
+  destruct (name_class k) eqn:E.
+  - apply name_class_cpu in E. subst. destruct (rl !! cpu_name); reflexivity.
+  - apply name_class_mem in E. subst. destruct (rl !! mem_name); reflexivity.
+  - apply name_class_pods in E. subst. destruct (rl !! pods_name) as [m|]; cbn; reflexivity.
+  - assert (k <> pods_name /\ k <> cpu_name /\ k <> mem_name) as (N1 & N2 & N3)
+      by (repeat split; intros ->; vm_compute in E; discriminate).
+    destruct (rl !! k) as [m|]; cbn; [unfold quantity_of; rewrite decide_False by exact N1; reflexivity|].
+    rewrite decide_False by exact N2. rewrite decide_False by exact N3. reflexivity.
+  - assert (k <> cpu_name /\ k <> mem_name) as (N2 & N3) by (split; intros ->; vm_compute in E; discriminate).
+    destruct (rl !! k); cbn; rewrite decide_False by exact N2; rewrite decide_False by exact N3; reflexivity.
+  - assert (k <> pods_name /\ k <> cpu_name /\ k <> mem_name) as (N1 & N2 & N3)
+      by (repeat split; intros ->; vm_compute in E; discriminate).
+    destruct (rl !! k) as [m|]; cbn; [unfold quantity_of; rewrite decide_False by exact N1; reflexivity|].
+    rewrite decide_False by exact N2. rewrite decide_False by exact N3. reflexivity.
+  - assert (k <> cpu_name /\ k <> mem_name) as (N2 & N3) by (split; intros ->; vm_compute in E; discriminate).
+    destruct (rl !! k); cbn; rewrite decide_False by exact N2; rewrite decide_False by exact N3; reflexivity.
+  - assert (k <> cpu_name /\ k <> mem_name) as (N2 & N3) by (split; intros ->; vm_compute in E; discriminate).
+    destruct (rl !! k); cbn; rewrite decide_False by exact N2; rewrite decide_False by exact N3; reflexivity.
+Qed.
+
+(* what the unchanged code does with the infinite sentinel (amd64): a NEGATIVE quantity, -2^63 *)
+Example convert_sentinel :
+  let inf := (2 ^ 53 - 1) * 2 ^ 971 in
+  convert (mkRes inf inf None) !! cpu_name = Some min64 /\ amount_ok inf = false /\
+  fst (new_resource (convert (mkRes inf inf None))) = mkRes min64 min64 None.
+Proof. vm_compute. repeat split; reflexivity. Qed.
+
+(* non-vacuity above 2^53: 1 Ei of memory, 3*2^60 milli-bytes of ephemeral-storage, 2^63 - 1024 milli-cpu,
+   2^53 + 2 pods *)
+Definition large_res : res :=
+  mkRes (2 ^ 63 - 1024) (2 ^ 60) (Some {[1%positive := 2 ^ 53 + 2; 7%positive := 3 * 2 ^ 60]}).
+Example roundtrip_large_nonvacuous :
+  rt_domain large_res = true /\
+  bool_decide (new_resource (convert large_res) = (large_res, 2 ^ 53 + 2)) = true /\
+  amount_ok (2 ^ 53 + 1) = false /\ f64 (2 ^ 53 + 1) = 2 ^ 53 /\ f64 (2 ^ 53 + 3) = 2 ^ 53 + 4.
 Proof. vm_compute. repeat split; reflexivity. Qed.
